@@ -5,7 +5,6 @@ use pc_keyboard::*;
 
 /// C05: for every 11-bit word, add_word == reference frame check (acceptance, error priority, data).
 #[kani::proof]
-#[kani::unwind(300)]
 pub fn c05_q_word_vs_reference() {
     let w: u16 = kani::any();
     kani::assume(w < 2048);
@@ -24,7 +23,6 @@ pub fn c05_q_word_vs_reference() {
 /// (a framing error is returned as such; an accepted frame is handed on, so the result is
 /// whatever the scancode stage says about the data byte).
 #[kani::proof]
-#[kani::unwind(300)]
 pub fn c05_q_keyboard_word() {
     let w: u16 = kani::any();
     kani::assume(w < 2048);
@@ -44,7 +42,6 @@ pub fn c05_q_keyboard_word() {
 
 /// C05 corollary: every byte round-trips through its valid frame.
 #[kani::proof]
-#[kani::unwind(300)]
 pub fn c05_q_roundtrip() {
     let b: u8 = kani::any();
     let w = encode_frame(b);
@@ -56,7 +53,6 @@ pub fn c05_q_roundtrip() {
 
 /// C05 corollary: every single-bit corruption of a valid frame is rejected.
 #[kani::proof]
-#[kani::unwind(300)]
 pub fn c05_q_single_bit_flip() {
     let b: u8 = kani::any();
     let j: u8 = kani::any();
@@ -71,7 +67,6 @@ pub fn c05_q_single_bit_flip() {
 /// C05 on the bit-serial path: whatever frame (valid or corrupted) came before, a frame shifted in
 /// bit by bit is accepted exactly when valid and then yields exactly its data bits.
 #[kani::proof]
-#[kani::unwind(300)]
 pub fn c05_q_serial_frame_after_any_frame() {
     let mut d = Ps2Decoder::new();
     let mut i = 0u8;
@@ -96,7 +91,6 @@ pub fn c05_q_serial_frame_after_any_frame() {
 /// C05 on the bit-serial path after a timeout: k bits of an abandoned frame, clear(), then a frame
 /// shifted in bit by bit is accepted exactly when valid (through the Keyboard as well).
 #[kani::proof]
-#[kani::unwind(300)]
 pub fn c05_q_serial_frame_after_clear() {
     let k: u8 = kani::any();
     kani::assume(k <= 10);
@@ -119,7 +113,6 @@ pub fn c05_q_serial_frame_after_clear() {
 /// C05 thorough: two-bit corruptions are accepted only if they leave start/stop alone and keep
 /// parity odd, and then deliver exactly the corrupted data bits (never some third byte).
 #[kani::proof]
-#[kani::unwind(300)]
 pub fn c05_t_double_bit_flip() {
     let b: u8 = kani::any();
     let j: u8 = kani::any();
@@ -140,7 +133,6 @@ pub fn c05_t_double_bit_flip() {
 /// C06 (a): from new(), ten bits give Ok(None), the eleventh gives what add_word gives for the
 /// word they spell, and the decoder is then structurally equal to new() - valid frame or not.
 #[kani::proof]
-#[kani::unwind(300)]
 pub fn c06_q_serial_equals_word() {
     let mut d = Ps2Decoder::new();
     let mut w = 0u16;
@@ -165,7 +157,6 @@ pub fn c06_q_serial_equals_word() {
 
 /// C06 (b): clear() after any number (<= 10) of bits yields the initial state.
 #[kani::proof]
-#[kani::unwind(300)]
 pub fn c06_q_clear_resets() {
     let k: u8 = kani::any();
     kani::assume(k <= 10);
@@ -179,7 +170,6 @@ pub fn c06_q_clear_resets() {
 /// C06 (c): a partial frame is never reported complete early, and distinct partial frames do not
 /// collapse into the initial state (so the *count* of pending bits is part of the state).
 #[kani::proof]
-#[kani::unwind(300)]
 pub fn c06_q_partial_then_frame() {
     // k bits of garbage, clear(), then a full symbolic frame: must decode as if fresh.
     let k: u8 = kani::any();
@@ -208,7 +198,6 @@ pub fn c06_q_partial_then_frame() {
 /// clear(), then frame 2: frame 2 decodes exactly as whole-word decoding says. All 4.2M ordered
 /// frame pairs and all partial states in one query, through Keyboard::add_bit/clear as well.
 #[kani::proof]
-#[kani::unwind(300)]
 pub fn c06_t_two_frames() {
     let mut d = Ps2Decoder::new();
     let mut i = 0u8;
@@ -250,7 +239,6 @@ pub fn c06_t_two_frames() {
 
 /// C06 thorough: same through the combined Keyboard (frame 1 corrupted or not, then frame 2).
 #[kani::proof]
-#[kani::unwind(300)]
 pub fn c06_t_keyboard_two_frames() {
     let calls = core::cell::Cell::new(0);
     let mut kb = Keyboard::new(ScancodeSet1::new(), crate::spy::Spy { tag: false, calls: &calls }, HandleControl::Ignore);
@@ -291,7 +279,6 @@ pub fn c06_t_keyboard_two_frames() {
 /// C06 thorough: three frames in a row (valid or corrupted, 2^33 bit streams), each decoded exactly
 /// as whole-word decoding says, with optional clear() between them.
 #[kani::proof]
-#[kani::unwind(300)]
 pub fn c06_t_three_frames() {
     let mut d = Ps2Decoder::new();
     let mut f = 0u8;
